@@ -37,7 +37,7 @@ def model_check(res, work, tier, pid):
     res.cov["prefix_design_rejected_by_tlc"] = True
 
 
-def gen(module, cfg, tag, work, name, timeout=600, simulate=None, depth=None, workers=4, seed_=None):
+def gen(module, cfg, tag, work, name, timeout=600, simulate=None, depth=None, workers=4, seed_=None, limit=None):
     r = tlc(module, cfg, os.path.join(work, "gen_" + name), workers=workers, timeout=timeout, simulate=simulate, depth=depth,
             seed_=seed_, heap="6g")
     if "Error:" in r["out"] and "SCHED" not in r["out"] and "SEQ" not in r["out"]:
@@ -51,6 +51,9 @@ def gen(module, cfg, tag, work, name, timeout=600, simulate=None, depth=None, wo
         if s not in seen:
             seen.add(s)
             uniq.append(s)
+    if limit and len(uniq) > limit:
+        step = len(uniq) // limit
+        uniq = uniq[::step][:limit]
     with open(path, "w") as f:
         f.write("\n".join(uniq) + ("\n" if uniq else ""))
     return path, len(uniq), r
@@ -120,6 +123,30 @@ def check_c11(tier):
         if len(res.cov["samples"]) < 3:
             res.cov["samples"].append({"schedule": json.loads(open(path).readline()), "from": cfg})
         replay_and_judge(res, work, "router-replay", path, name, 8, extra, pid)
+    # the same schedules with time passing: a notification that meets live workers must still be applied when those
+    # workers stay where they are for seconds (a loop that waits only for a grace period loses it)
+    picked = []
+    for line in open(os.path.join(work, "small1.ndjson")):
+        sc = json.loads(line)
+        for i in range(len(sc) - 2):
+            if sc[i][0] == "not" and sc[i + 1][0] == "take" and sc[i + 2][0] == "w":
+                picked.append(line)
+                break
+    rnd = __import__("random").Random(seed())
+    rnd.shuffle(picked)
+    ndwell = 8 if tier == "quick" else 32
+    dpath = os.path.join(work, "dwell.ndjson")
+    with open(dpath, "w") as f:
+        f.writelines(picked[:ndwell])
+    if not picked:
+        raise ToolError("no schedule in which a notification meets a live worker")
+    replay_and_judge(res, work, "router-replay", dpath, "dwell", 8, ["--keys", "a", "--dwell-ms", "2500" if tier == "quick" else "8000"], pid)
+    dwells = sum(open(os.path.join(work, "dwell.events.%d.ndjson" % i)).read().count('"ev":"Dwell"') for i in range(8))
+    if dwells == 0:
+        raise ToolError("the dwell schedules never held a worker while a notification was pending")
+    res.cov["dwell_schedules"] = min(ndwell, len(picked))
+    res.cov["dwells"] = dwells
+    total += min(ndwell, len(picked))
     res.cov["traces_validated_against_impl"] = total
     res.cov["evaluations"] = total
     res.cov["distinct_nontrivial"] = total
@@ -141,11 +168,13 @@ def check_c12(tier):
     total = 0
     # request sequences over the whole method x parameter-class alphabet
     seqs = [("seq1", "Gen_Requests_1.cfg", None, None), ("seq2", "Gen_Requests_2.cfg", None, None)]
+    # long sessions: one server answers 40 requests in a row (resources that leak per failed request run out)
+    seqs.append(("seqlong", "Gen_Requests_long.cfg", "num=24" if tier == "quick" else "num=200", 41))
     if tier == "thorough":
         seqs.append(("seq3sim", "Gen_Requests_sim.cfg", "num=6000", 6))
     for name, cfg, sim, depth in seqs:
         path, n, r = gen("Gen_Requests.tla", cfg, "SEQ", work, name, simulate=sim, depth=depth, workers=(1 if sim else 4),
-                         seed_=seed() if sim else None)
+                         seed_=seed() if sim else None, limit=(None if name != "seqlong" else 48 if tier == "quick" else 1200))
         if not sim:
             res.add_tlc("gen:" + cfg, r)
         if n == 0:
